@@ -874,6 +874,12 @@ func cmdReplay(args []string) int {
 			fmt.Println(f.Stack)
 		}
 	}
+	if r.Result == "violation" && len(r.Failures) > 0 {
+		if k := matchKnown(loadKnown(), rf.Property, r.Failures[0]); k != nil {
+			fmt.Printf("KNOWN-FINDING: property=%s %s: %s\n", rf.Property, k.ID, k.What)
+			return 0
+		}
+	}
 	if r.Result == "violation" {
 		if rf.Violation != nil && len(r.Failures) > 0 && (r.Failures[0].Rule != rf.Violation.Rule || r.Failures[0].Step != rf.Violation.Step) {
 			fmt.Printf("NOTE: differs from the recorded violation (%s at step %d) - the tree changed?\n", rf.Violation.Rule, rf.Violation.Step)
